@@ -233,7 +233,7 @@ func c07Strings(w *run.Worker) {
 	// every escape form in full (longer than the exhaustive bound)
 	extra := []string{`\a\b\f\n\r\t\v\\`, `\x41\x7f\xff\x00`, `\101\377\000`, `\400`, `é日`, `\U0001F600`, `\U00110000`, `\ud800`, `\udfff`, ``,
 		`\U0000d800`, `\x4`, `\x4g`, `\u12`, `\u123g`, `\U0001F60`, `\8`, `\18`, `\1`, `\12`, `\c`, `\ `, `\é`, `\X41`, `a\`, `\"`, `\'`, "\\`", `é日本`, "\t", "a\rb",
-		`\x41B\103D`, `%d \% %s`, `\u{41}`, `\N{dash}`, `\x-1`, `\u+041`, `\u 041`}
+		`\x41B\103D`, `\xAB\xaB\xFf`, `\uABCD\uabcd\uAbCd`, `\U0010FFFF`, `\U0010ffff`, `\uD7FF\uE000`, `\uDFFF`, `\U000E0000`, `\xG0`, `\x0G`, `\u00G0`, `%d \% %s`, `\u{41}`, `\N{dash}`, `\x-1`, `\u+041`, `\u 041`}
 	for _, body := range extra {
 		one(body)
 	}
@@ -349,7 +349,13 @@ func c07Numbers(w *run.Worker) {
 		spellings := []struct{ s, class string }{{v.String(), "decimal"}}
 		if v.Sign() > 0 || true {
 			h := v.Text(16)
-			spellings = append(spellings, struct{ s, class string }{"0x" + h, "hex"}, struct{ s, class string }{"0X" + strings.ToUpper(h), "hex"})
+			mixed := []byte(h)
+			for i := range mixed {
+				if i%2 == 0 && mixed[i] >= 'a' && mixed[i] <= 'f' {
+					mixed[i] = mixed[i] - 'a' + 'A'
+				}
+			}
+			spellings = append(spellings, struct{ s, class string }{"0x" + h, "hex"}, struct{ s, class string }{"0X" + strings.ToUpper(h), "hex"}, struct{ s, class string }{"0x" + string(mixed), "hex"})
 		}
 		for _, sp := range spellings {
 			for pi := range prefixes {
